@@ -1,15 +1,16 @@
 #!/bin/sh
-# selftest/run_seeds.sh [pattern]: apply every stored seed (seeded/<id>/patch.diff) to a scratch copy of /repo's working tree and
+# selftest/run_seeds.sh [pattern] [jobs]: apply every stored seed (seeded/<id>/patch.diff) to a scratch copy of /repo's working tree and
 # run the quick check of its property against it; a seed counts as detected when the check reports a VIOLATION (exit 1).
 cd "$(dirname "$0")/.."
-fail=0; n=0
-for d in seeded/${1:-C}*; do
-  id=$(basename "$d"); P=${id%%-*}
-  out=$(selftest/try_patch.sh "$d/patch.diff" "$P" quick 2>&1 | head -2)
-  n=$((n+1))
+ROOT=$(pwd)
+ls -d seeded/${1:-C}* | xargs -P ${2:-4} -I{} sh -c '
+  d={}; id=$(basename "$d"); P=${id%%-*}
+  out=$('"$ROOT"'/selftest/try_patch.sh "'"$ROOT"'/$d/patch.diff" "$P" quick 2>&1 | head -2)
   case "$out" in
-    *VIOLATION*) echo "detected  $id  $(echo "$out" | head -1 | sed 's/.*\[//;s/\]//' | cut -c1-110)";;
-    *) echo "MISSED    $id  $out"; fail=1;;
-  esac
-done
-echo "$n seeds"; exit $fail
+    *VIOLATION*) echo "detected  $id  $(echo "$out" | head -1 | sed "s/.*\[//;s/\]//" | cut -c1-110)";;
+    *) echo "MISSED    $id  $out";;
+  esac' | sort > /tmp/run_seeds.$$.log
+cat /tmp/run_seeds.$$.log
+n=$(wc -l < /tmp/run_seeds.$$.log); m=$(grep -c "^MISSED" /tmp/run_seeds.$$.log)
+rm -f /tmp/run_seeds.$$.log
+echo "$n seeds, $m missed"; [ "$m" = 0 ]
